@@ -18,9 +18,11 @@ Min(a, b) == IF Le(a, b) THEN a ELSE b
 \* min(base * (mp/mq)^n, max) in P units; for multiplier >= 1 the sequence is monotone, so it stays at max once reached
 TargetP(c, n) ==
   LET mx == ToP(c.max)
+      \* (F[k-1] is bound once: TLC does not memoise applications of a recursive function)
       F[k \in 0..n] == IF k = 0 THEN Min(ToP(c.base), mx)
-                       ELSE IF c.mp >= c.mq /\ F[k-1] = mx THEN mx
-                       ELSE Min(DivSmall(MulSmall(F[k-1], c.mp), c.mq)[1], mx)
+                       ELSE LET prev == F[k-1] IN
+                            IF c.mp >= c.mq /\ prev = mx THEN mx
+                            ELSE Min(DivSmall(MulSmall(prev, c.mp), c.mq)[1], mx)
   IN F[n]
 \* tolerance of the floating-point evaluation (R2): 1 ns + 1e-9 relative
 Tol(r) == Add(<<1>>, DropK(r, 9))
